@@ -180,17 +180,18 @@ def chain_part(prop, oprop, tier, rng, out, known, cov):
 
 def thread_part(prop, oprop, tier, rng, out, known, cov):
     """threaded operation: loop in a background thread, blocking emits from several producer threads (oracle only)"""
-    if oprop not in ("C02", "C03"):
+    if oprop not in ("C02", "C03", "C16A"):
         return
     n = {"quick": 60, "thorough": 900}[tier]
     nfind = 0
     hist = {}
     for _ in range(n):
-        c = threadfam.gen_case(rng)
+        # (C16: some consumers fail; the exception must come out of the blocking emit in the producer's thread)
+        c = threadfam.gen_case(rng, fail=(oprop == "C16A"))
         hist[c["node"]["k"]] = hist.get(c["node"]["k"], 0) + 1
         try:
             r = threadfam.run_case(c)
-            fs = threadfam.check(c, r, want=(oprop,))
+            fs = threadfam.check(c, r, want=("C16" if oprop == "C16A" else oprop,))
         except Exception as e:
             fs = [(oprop, "%s/threaded/harness-crash" % oprop, "threaded driver crashed: %r" % (e,))]
         for (p, sig, msg) in fs:
@@ -200,6 +201,8 @@ def thread_part(prop, oprop, tier, rng, out, known, cov):
             if nfind < 3:
                 out.violation(sig, msg, {"case": c, "family": "threaded"})
             nfind += 1
+        if any(("loop-thread-blocked" in f[1] or "emit-never-returns" in f[1]) for f in fs):
+            break                       # every further case would wait for the stall timeout again
     cov["threaded_evaluations"] = n
     cov["threaded_node_histogram"] = hist
     cov["evaluations"] = cov.get("evaluations", 0) + n
@@ -219,7 +222,7 @@ def run(prop, tier, seed, replay=None, extra=None):
         c = rp["case"]
         if rp.get("family") == "threaded":
             for _rep in range(5):
-                fs = threadfam.check(c, threadfam.run_case(c), want=(oprop,))
+                fs = threadfam.check(c, threadfam.run_case(c), want=("C16" if oprop == "C16A" else oprop,))
                 for (p, sig, msg) in fs:
                     (out.known_finding(sig, known[sig]["what"]) if sig in known else out.violation(sig, msg, {"case": c, "family": "threaded"}))
                 if fs:
